@@ -69,7 +69,17 @@ def check_validators(ctx, w, v, t, hint, siblings, path):
             except Exception as e:
                 ctx.violate(f"C02/validate-raises/{type(mh).__name__}/{type(e).__name__}", f"validate({v!r}) raised {short_tb(e)}")
                 ok = None
-            if ok is False:
+            known = False
+            if ok is False and w.rep_kind == "stack":
+                try:
+                    # the known finding: the stack machine pops an alias-built value exactly when the annotation object is a stack key
+                    known = hint in set(w.grammar.get_all_mentioned_symbols())
+                except Exception:
+                    known = True
+            if ok is False and known:
+                ctx.violate("C02/refinement/stack/annotated-symbol-built-without-its-refinement",
+                            f"{type(mh).__name__}.validate({v!r}) is False for a value found at {path} of a stack-mapped program")
+            elif ok is False:
                 ctx.violate(f"C02/validate-rejects-generated/{type(mh).__name__}",
                             f"{type(mh).__name__}.validate({v!r}) is False for a value found at {path} (params {vars(mh) if len(str(vars(mh))) < 200 else ''})")
         check_validators(ctx, w, v, t[1], typing.get_args(hint)[0], siblings, path)
